@@ -303,37 +303,47 @@ Fixpoint close_self (fuel : nat) (al : list (attr * attr)) (O : list attr) : lis
   | S f => close_self f al (add_new (alias_sources al O) O)
   end.
 
-(* attributes flowing in from other instances must be owned in every class *)
-Definition wild_step (T : table) (O : cid -> list attr) : list attr :=
-  flat_map (fun ci => alias_sources (c_alias_other ci) (O (c_name ci))) T.
+(* attributes flowing in from other instances must be owned in every class: W is that set.
+   The per-class closures are tabulated once per round. *)
+Definition owned_of (ci : class_info) (W : list attr) : list attr :=
+  close_self (S (List.length (c_alias ci))) (c_alias ci) (add_new W (add_new (c_mutated ci) [])).
 
-Definition owned_round (T : table) (W : list attr) (k : cid) : list attr :=
-  match find_class T k with
-  | Some ci => close_self (S (List.length (c_alias ci))) (c_alias ci) (add_new W (add_new (c_mutated ci) []))
-  | None => []
-  end.
+Definition wild_step (T : table) (W : list attr) : list attr :=
+  flat_map (fun ci => alias_sources (c_alias_other ci) (owned_of ci W)) T.
 
 Fixpoint wild_fix (fuel : nat) (T : table) (W : list attr) : list attr :=
   match fuel with
   | O => W
-  | S f => wild_fix f T (add_new (wild_step T (owned_round T W)) W)
+  | S f => let W' := add_new (wild_step T W) W in
+           if Nat.eqb (List.length W') (List.length W) then W else wild_fix f T W'
   end.
 
 Definition total_edges (T : table) : nat :=
   fold_left (fun n ci => (n + List.length (c_alias_other ci))%nat) T 0%nat.
 
-Definition owned (T : table) : cid -> list attr :=
-  owned_round T (wild_fix (S (total_edges T)) T []).
+Definition wild (T : table) : list attr := wild_fix (S (total_edges T)) T [].
+
+Definition owned_tab (T : table) (W : list attr) : list (cid * list attr) :=
+  map (fun ci => (c_name ci, owned_of ci W)) T.
+
+Fixpoint lookup_tab (tab : list (cid * list attr)) (k : cid) : list attr :=
+  match tab with
+  | [] => []
+  | (k', l) :: rest => if String.eqb k k' then l else lookup_tab rest k
+  end.
+
+Definition owned (T : table) : cid -> list attr := lookup_tab (owned_tab T (wild T)).
 
 Fixpoint subset (l1 l2 : list string) : bool :=
   match l1 with [] => true | x :: xs => mem x l2 && subset xs l2 end.
 
-Definition class_closed (T : table) (O : cid -> list attr) (ci : class_info) : bool :=
+(* O: the owned attributes per class; W: attributes that must be owned in every class *)
+Definition class_closed (O : cid -> list attr) (W : list attr) (ci : class_info) : bool :=
   let Ok := O (c_name ci) in
   subset (c_mutated ci) Ok
+  && subset W Ok
   && forallb (fun p => negb (mem (fst p) Ok) || mem (snd p) Ok) (c_alias ci)
-  && forallb (fun p => negb (mem (fst p) Ok)
-                       || forallb (fun cj => mem (snd p) (O (c_name cj))) T) (c_alias_other ci)
+  && forallb (fun p => negb (mem (fst p) Ok) || mem (snd p) W) (c_alias_other ci)
   && forallb (fun p => negb (mem (fst p) Ok)) (c_alias_shared ci)
   && forallb (fun a => negb (mem a Ok)) (c_deleted ci)
   && forallb (fun p => negb (mem (fst p) Ok) || mem (fst p) (c_shadowed ci)) (c_cattrs ci)
@@ -346,17 +356,21 @@ Fixpoint names_unique (T : table) : bool :=
   | ci :: T' => negb (existsb (fun cj => String.eqb (c_name ci) (c_name cj)) T') && names_unique T'
   end.
 
-Definition closedb (T : table) (O : cid -> list attr) : bool :=
-  names_unique T && forallb (class_closed T O) T.
+Definition closedb (T : table) (O : cid -> list attr) (W : list attr) : bool :=
+  names_unique T && forallb (class_closed O W) T.
 
-Definition sharing_ok (T : table) : bool := closedb T (owned T).
+Definition sharing_ok (T : table) : bool :=
+  let W := wild T in
+  let tab := owned_tab T W in
+  closedb T (lookup_tab tab) W.
 
 (* verdict per class, for reports *)
-Definition class_ok (T : table) (k : cid) : bool :=
-  match find_class T k with Some ci => class_closed T (owned T) ci | None => false end.
-
 Definition offending (T : table) : list cid :=
-  map c_name (filter (fun ci => negb (class_closed T (owned T) ci)) T).
+  let W := wild T in
+  let tab := owned_tab T W in
+  map c_name (filter (fun ci => negb (class_closed (lookup_tab tab) W ci)) T).
+
+Definition class_ok (T : table) (k : cid) : bool := negb (mem k (offending T)) && mem k (map c_name T).
 
 (* the table without the classes of the known findings *)
 Definition restrict (ex : list cid) (T : table) : table :=
